@@ -16,6 +16,10 @@ which a Python set is iterated appears in it as the order of a list, which the t
 component (type-node table, blank-node counter, `from`/`depends`, …) is equal.
 `annotateTypeWith … sups` is `annotateType` iterating the list `sups` instead of `supsOf G ty`
 (`annotateType_eq : annotateType … = annotateTypeWith … (supsOf G ty)` by `rfl`).
+`annotateType` and `annotateTypeWith` have an optional last argument `ov : Option Bool` by which the caller overrides
+the decision "the type is canonical" (`addExpr` uses it for a source, whose stored type may be stale: see
+`Tfv/Props/C07Graph.lean`); the statements below are about the default, `C19_emission_perm_canonical_ov` is the same
+statement for every override. Nothing here depends on `G.store`.
 -/
 namespace Tfv.C19
 open Tfv Tfv.Tax Tfv.GraphEx
@@ -72,6 +76,15 @@ theorem C19_emission_perm_canonical (G : GLang) (c : GCfg) (hc : c.withCanonical
     ∃ g2, annotateTypeWith G c g root cur ty sups = .ok g2 ∧ SameBut g1 g2 ∧
       ∀ t, t ∈ g1.triples ↔ t ∈ g2.triples :=
   annotateType_perm_canonical G c hc g l hg root cur ty mf sups hp g1 h
+
+/-- the same for every way `addExpr` calls `annotateType` (with the caller's `canonical` decision `ov`) -/
+theorem C19_emission_perm_canonical_ov (G : GLang) (c : GCfg) (hc : c.withCanonicalTypes = false) (g : GState)
+    (l : List (Term × Node)) (hg : g.typeNodes = (initGraph G c).typeNodes ++ l) (root : Node) (cur : Nat)
+    (ty : Term) (mf : Bool) (ov : Option Bool) (sups : List Ty) (hp : sups.Perm (supsOf G ty)) (g1 : GState)
+    (h : annotateType G c g root cur ty mf ov = .ok g1) :
+    ∃ g2, annotateTypeWith G c g root cur ty sups ov = .ok g2 ∧ SameBut g1 g2 ∧
+      ∀ t, t ∈ g1.triples ↔ t ∈ g2.triples :=
+  annotateType_perm_canonical_ov G c hc g l hg root cur ty mf ov sups hp g1 h
 
 /-- non-vacuity: a node of type `C` has the supertypes `[B, A]`; iterating `[A, B]` emits the triples in another
 order -/
